@@ -86,5 +86,7 @@ impl Strategy for Dfs {
         &mut self.stats
     }
 
-    fn reset(&mut self) {}
+    fn reset(&mut self) {
+        self.stats = McStats::default();
+    }
 }
